@@ -809,6 +809,19 @@ TOP:
 				ea = append(ea, resWarn(field.line, field.col, "%s", err))
 				break
 			}
+			// The method was found on the form of the Go type that was
+			// bound, a struct or a pointer to it. This object can be the
+			// other form.
+			if recv := method.Type().In(0); 0 < len(args) && args[0].Type() != recv {
+				switch {
+				case args[0].Kind() == reflect.Ptr && args[0].Type().Elem() == recv && !args[0].IsNil():
+					args[0] = args[0].Elem()
+				case recv.Kind() == reflect.Ptr && recv.Elem() == args[0].Type():
+					p := reflect.New(args[0].Type())
+					p.Elem().Set(args[0])
+					args[0] = p
+				}
+			}
 			verifPoint("rr_call", fd)
 			mva := method.Call(args)
 			switch len(mva) {
